@@ -63,6 +63,7 @@ def vWsa : Var := mkVar 11 0
 def vWsc : Var := mkVar 12 0
 def vVip : Var := mkVar 13 0
 def vBst : Var := mkVar 14 0
+def vLastm : Var := mkVar 15 0
 
 def oNb (s : Sched) (b : Nat) : Obj := enc 1 (if s.merged then 0 else b + 1)
 def oNbClose : Obj := enc 1 0
@@ -96,11 +97,12 @@ def progR (s : Sched) : List Ev :=
       else [])
   ++ [.close oAbort, .wgWait oRund, .rd vWsa]
 
-/-- the status thread: saves the configuration store, consumes the trigger-rate messages -/
+/-- the status thread: saves the configuration store (from its private table of last messages), consumes the
+    trigger-rate messages (and remembers them in that table) -/
 def progS (s : Sched) : List Ev :=
-  [.lock oCfg, .wr vVip, .unlock oCfg]
-  ++ (rng (s.trsIdx s.k)).flatMap (fun m => [.recv (oCm m), .rd (vTrs m)])
-  ++ [.lock oCfg, .wr vVip, .unlock oCfg]
+  [.lock oCfg, .wr vVip, .wr vLastm, .unlock oCfg]
+  ++ (rng (s.trsIdx s.k)).flatMap (fun m => [.recv (oCm m), .rd (vTrs m), .wr vLastm])
+  ++ [.lock oCfg, .wr vVip, .wr vLastm, .unlock oCfg]
 
 /-- producer (simulated source) / reader loop (Abaco, Lancero) -/
 def progP (s : Sched) : List Ev :=
@@ -205,7 +207,7 @@ def adder (s : Sched) (w : Obj) : Tid :=
 /-- all tokens in use -/
 def allToks (s : Sched) : List Tok :=
   let p := s.par
-  [nfnTok, tk 2 0 0, tk 5 0 0, tk 9 0 0, tk 9 0 1, tk 11 0 0, tk 11 0 1, tk 12 0 0, tk 13 0 0, tk 14 0 0]
+  [nfnTok, tk 2 0 0, tk 5 0 0, tk 9 0 0, tk 9 0 1, tk 11 0 0, tk 11 0 1, tk 12 0 0, tk 13 0 0, tk 14 0 0, tk 15 0 0]
   ++ (rng s.n).flatMap (fun i => procToks i true)
   ++ (rng p.narch).map (fun j => tk 6 j 0) ++ (rng p.ntrs).map (fun m => tk 10 m 0)
   ++ (if p.merged then blockToks p 0 else (rng p.nblk).flatMap (fun b => blockToks p (b + 1)))
